@@ -201,6 +201,36 @@ def zone_rules(repo, rep, ctx):
     rep.floor('R-AFFINE', 2, 'UTM and ISG zone formulas')
 
 
+def guard_rules(repo, rep):
+    """the accepted band is exactly the one the property quantifies over: -80 <= lat <= 84, -180 <= lon <= 180"""
+    f = repo.func('geodepy.convert', 'geo2grid')
+    names = [p.name for p in f.params[:2]]
+    want = {names[0]: (-80, 84), names[1]: (-180, 180)}
+    for nm, (lo, hi) in want.items():
+        key = 'R-GUARD::geodepy/convert.py::geo2grid::%s-range' % nm
+        found = None
+        for st in f.node.body:
+            if isinstance(st, ast.If) and any(isinstance(b, ast.Raise) for b in st.body) and isinstance(st.test, ast.BoolOp) and isinstance(st.test.op, ast.Or):
+                cs = st.test.values
+                if len(cs) == 2 and all(isinstance(c, ast.Compare) and isinstance(c.left, ast.Name) and c.left.id == nm and len(c.ops) == 1 for c in cs):
+                    found = st
+        if found is None:
+            rep.undecided('R-GUARD', key, where(f, f.node), 'no range check of the form "%s < a or %s > b: raise"' % (nm, nm))
+            continue
+        vals = {}
+        for c in found.test.values:
+            try:
+                v = ast.literal_eval(c.comparators[0])
+            except Exception:
+                v = None
+            vals[type(c.ops[0]).__name__] = v
+        if vals.get('Lt') == lo and vals.get('Gt') == hi:
+            rep.holds('R-GUARD', key, where(f, found), '%s outside [%d, %d] is rejected, everything inside is accepted' % (nm, lo, hi))
+        else:
+            rep.violated('R-GUARD', key, where(f, found), 'geo2grid accepts %s in %s..%s; the projection is specified on [%d, %d]' % (nm, vals.get('Lt'), vals.get('Gt'), lo, hi),
+                         expected='%s < %d or %s > %d' % (nm, lo, nm, hi), actual=stmt_text(found.test))
+
+
 def units_rules(repo, rep):
     f = repo.func('geodepy.convert', 'geo2grid')
     for p in f.params[:2]:
@@ -218,6 +248,7 @@ def run(repo, rep):
     if ctx is not None:
         zone_rules(repo, rep, ctx)
     units_rules(repo, rep)
+    guard_rules(repo, rep)
     tr = ThreadRule(repo, rep)
     f = repo.func('geodepy.convert', 'geo2grid')
     tr.check_const(f)
